@@ -14,7 +14,7 @@ fn add(vios: &mut VioSet, kind: &str, enc: &str, msg: String) {
     vios.add(Violation { prop: "C20".into(), kind: kind.into(), msg, replay: j });
 }
 
-fn one(e: &Enc) -> (Stats, VioSet) {
+pub fn one(e: &Enc) -> (Stats, VioSet) {
     let mut stats = Stats::new();
     let mut vios = VioSet::default();
     // ---- behaviour: decode all strings of length <= 2 (with replacement, UTF-16 units)
